@@ -23,7 +23,7 @@ THEOREMS = ['save_is_read_only', 'save_load_restores', 'resume_equivalent_same_d
 NOTES = 'Model mirrors the code after fixes D2 (placement of the recomputation at load) and D9 (state saved before the first factor update).'
 
 
-def gen(rng, tier):
+def gen(rng, tier, k=0):
     from harness import kfacgen
     cfg = kfacgen.gen_cfg(rng, tier, worlds=(1, 2, 2, 4), allow_callable=False)
     cfg['kl_clip'] = None
@@ -32,6 +32,15 @@ def gen(rng, tier):
     cfg['inv_update_steps'] = rng.choice([1, 2, 3, 4])
     if rng.random() < 0.4:
         cfg['damping'] = ['table', [0.25 + 0.125 * ((5 * s) % 7) for s in range(12)]]
+    if k % 3 == 0:
+        # every third configuration: a step-dependent damping that is baked into the second-order data and inverses reused across
+        # steps, so that a checkpoint off the inverse interval distinguishes "damping of the restored step" from any other
+        cfg['damping'] = ['table', [0.25 + 0.125 * ((5 * s) % 7) for s in range(12)]]
+        cfg['inv_update_steps'] = rng.choice([2, 3])
+        if rng.random() < 0.5:
+            cfg['compute_method'] = 'inverse'
+        else:
+            cfg['compute_method'] = 'eigen'; cfg['compute_eigenvalue_outer_product'] = True; cfg['colocate_factors'] = True
     nsteps = rng.randint(2, 4 if tier == 'quick' else 6)
     base = []
     for _ in range(nsteps):
@@ -55,7 +64,7 @@ def run(tier, seed, rng):
     failures: list[Failure] = []
     n = 14 if tier == 'quick' else 120
     for k in range(n):
-        cfg, base, nsteps = gen(rng, tier)
+        cfg, base, nsteps = gen(rng, tier, k)
         W = cfg['W']
         resA, wA = kfacmachine.run_impl(cfg, base, W, seed=seed + k)
         if wA is not None and not wA.ok:
